@@ -170,13 +170,18 @@ struct V {
     sweep: bool,
 }
 
+thread_local! {
+    /// The device reports a used length of 1 (only the status byte written) for the next request
+    /// it fails.
+    static SHORT_LEN: std::cell::Cell<bool> = const { std::cell::Cell::new(false) };
+}
+
 impl V {
     fn pick_status(&self) -> u8 {
-        if self.sweep {
-            choose(256, "device status byte") as u8
-        } else {
-            STATUSES[deviate(STATUSES.len(), "device status")]
-        }
+        let st = if self.sweep { choose(256, "device status byte") as u8 } else { STATUSES[deviate(STATUSES.len(), "device status")] };
+        // A device that fails a request may report that it wrote the status byte only.
+        SHORT_LEN.with(|s| s.set(st != 0 && deviate(2, "used length of a failed request (default: the whole writable part)") == 1));
+        st
     }
 }
 
@@ -204,7 +209,7 @@ impl TransportVisitor for V {
                             match *mode.borrow() {
                                 Some(st) => {
                                     let (data, len) = b.execute(&r, st);
-                                    Action::Complete(data, len)
+                                    Action::Complete(data, if st != 0 && SHORT_LEN.with(|s| s.get()) { 1 } else { len })
                                 }
                                 None => Action::Hold,
                             }
